@@ -10,7 +10,7 @@ Correspondence: outcomes of the calls of (c) equal the pure Coq model's outcome 
 import json, threading
 from harness import core, codec, gen, universe as U, implrun as I, streams
 from harness.gen import base_desc
-from harness.props.c04 import jsonable, any_canonical
+from harness.props.c04 import jsonable, any_canonical, constructed_default_cases, touch_absent_optionals, has_unassigned_record, safe_eq
 from pyasn1 import debug, error
 from pyasn1.type import univ, base
 from pyasn1.codec.native import encoder as native_enc
@@ -145,6 +145,25 @@ def part_a(ctx, cases, tag=''):
                 what = '%s encoding changed what == answers' % name
             if what:
                 ctx.prop_fail(what, dict(m, codec=name, opts=opts))
+        # reads of absent OPTIONAL members (they leave schema placeholders) in between: same bytes, same == answers
+        log = []
+        twin_eq0 = safe_eq(obj, others[0])
+        if touch_absent_optionals(obj, log):
+            ctx.stats['values whose absent OPTIONAL members were read before encoding again'] += 1
+            for name, opts in ENCODERS:
+                if enc_outcome(I.run_encode(name, obj, **opts)) != enc_outcome(first[(name, str(opts))]):
+                    ctx.prop_fail('%s encoding differs after absent OPTIONAL members were merely read' % name, dict(m, codec=name, opts=opts, reads=log[:10]))
+            fid = 'F20b' if has_unassigned_record(c.T, c.v) else None
+            if safe_eq(obj, others[0]) != twin_eq0:
+                ctx.prop_fail('== against an identical value answers differently after absent OPTIONAL members were merely read',
+                              dict(m, before=jsonable(twin_eq0), after=jsonable(safe_eq(obj, others[0])), reads=log[:10]), finding=fid)
+            d = I.run_encode('DER', obj)
+            if d[0] == 'ok' and any_canonical(c.T, c.v, 'DER'):
+                r = I.run_decode('DER', d[1], asn1Spec=fresh.spec)
+                r0 = I.run_decode('DER', d[1], asn1Spec=codec.Case(c.T, c.v).spec)
+                if not same_dec(dec_outcome(r, c.T), dec_outcome(r0, c.T)):
+                    ctx.prop_fail('decoding with the type object of a value whose members were read differs from decoding with a fresh one', dict(m, reads=log[:10]))
+            snap0, eq0 = deep_snap(obj), eq_probe(obj, others)
         # native encoder: instantiates unassigned OPTIONAL/DEFAULT members (concrete state), the content must stay
         n1 = native(obj)
         n2 = native(obj)
@@ -556,8 +575,10 @@ def run(ctx):
     cases = [c for c in cases if c.want[0] != 'bad']
     search_only = getattr(ctx, 'search_only', False)
     exprs, meta = ([], []) if not search_only else (None, None)
-    part_a(ctx, cases)
-    part_b(ctx, cases)
+    rcases = [c for c in constructed_default_cases(ctx, ctx.n(30, 300)) if c.want[0] != 'bad']
+    ctx.stats['cases with a DEFAULT component of constructed type'] = len(rcases)
+    part_a(ctx, cases + rcases)
+    part_b(ctx, cases + rcases[:20])
     part_c(ctx, cases, ctx.n(400, 4000), exprs, meta)
     part_d(ctx, cases, ctx.n(60, 600))
     part_e(ctx, cases[:40] if quick else cases[:120])
